@@ -222,12 +222,14 @@ def run(ctx: Ctx) -> None:
     conds = []
     for k in range(3):
         for c in (1, 2, 3):
-            f = F.replace("__K__", str(k)).replace("__C__", str(c))
-            f = f.replace("__EPRE__", "0 <= enforce <= 1" if k == 1 else "enforce == 1")
-            f = f.replace("__MINMAX__", str(c) if k == 1 else "1")
-            f = f.replace("__QPRE__", "0 <= queue <= 4" if k != 0 else "queue == 0")
-            src += f
-            conds.append(Cond(f"pool_k{k}_c{c}", "confirm", 900, keyfn=_key_from_replay))
+            variants = [("", "enforce == 1", "0 <= queue <= 4" if k != 0 else "queue == 0")]
+            if k == 1:   # MultiThreadRunner: split the option space so that every condition stays confirmable
+                variants = [(f"_e{e}_q{q}", f"enforce == {e}", f"queue == {q}") for e in (0, 1) for q in (0, 2, 4)]
+            for suffix, epre, qpre in variants:
+                f = F.replace("pool_k__K___c__C__", f"pool_k{k}_c{c}{suffix}").replace("__K__", str(k)).replace("__C__", str(c))
+                f = f.replace("__EPRE__", epre).replace("__MINMAX__", str(c) if k == 1 else "1").replace("__QPRE__", qpre)
+                src += f
+                conds.append(Cond(f"pool_k{k}_c{c}{suffix}", "confirm", 900, keyfn=_key_from_replay))
     src += EXTRA
     conds += [Cond("twin", "refute", 60), Cond("canary_no_prune", "refute", 120)]
     ctx.ch_batch("c14", src, conds)
@@ -238,7 +240,7 @@ def run(ctx: Ctx) -> None:
         "BaseRunner._report_child_runner_heartbeats",
     ]
     ctx.bounds = {"capacity": "1..3", "iterations": "3 death rounds (any subset of up to 3 tracked workers each, incl. all at once) + 2 settle iterations",
-                  "options": "MTR: enforce_max_processes on/off, min_processes 1..capacity; queue length 0..4"}
+                  "options": "MTR: enforce_max_processes on/off, min_processes 1..capacity; queue length 0..4 (MultiThreadRunner: 0, 2, 4)"}
     ctx.stubs += ["multiprocessing.Process -> FakeProcess (start/terminate/kill/join recorded; is_alive from the death plan)",
                   "Manager -> FakeManager; cpu_count -> capacity; time.sleep no-op; deterministic uuid4",
                   "register_runner_heartbeats wrapped by a recorder (the real method is still called)"]
